@@ -376,6 +376,7 @@ int main(int argc, char **argv) {
     FILE *in = fopen(argv[1], "r");
     res = rank == 0 ? fopen(argv[2], "w") : fopen("/dev/null", "w");
     if (!in || !res) { fprintf(stderr, "c14_mode: cannot open script/result\n"); MPI_Abort(MPI_COMM_WORLD, 2); }
+    setvbuf(res, NULL, _IOLBF, 0);   /* a crash inside a call must not lose the lines before it */
     strncpy(wdir, argv[3], sizeof wdir - 1);
     snprintf(path, sizeof path, "%s/c14_work.nc", wdir);
     snprintf(tmpl[0], sizeof tmpl[0], "%s/c14_tmpl0.nc", wdir);
